@@ -87,14 +87,6 @@ class Gen:
             return r.choice([1, 2, 3, 4, 8, 16])
         if kind == "SignedDataNumber":
             return r.choice([1, 2, 3, 4])
-        if kind == "Ip6Addr" and r.random() < 0.25:
-            # special-purpose addresses: IPv4-mapped, IPv4-compatible, loopback, unspecified, link-local
-            return r.choice([[0] * 10 + [255, 255] + [r.randrange(256) for _ in range(4)],
-                             [0] * 12 + [r.randrange(1, 256) for _ in range(4)],
-                             [0] * 15 + [1], [0] * 16,
-                             [0xFE, 0x80] + [0] * 6 + [r.randrange(256) for _ in range(8)]])
-        if kind == "Ip4Addr" and r.random() < 0.15:
-            return r.choice([[0, 0, 0, 0], [255, 255, 255, 255], [127, 0, 0, 1], [224, 0, 0, 1]])
         if kind == "Float64":
             return 8
         if kind.startswith("Duration"):
